@@ -2,7 +2,7 @@ use crate::bitpack::BitPack;
 use crate::bs_read::ByteStreamReadBuffer;
 use crate::cv_section::CompressedVectorSectionHeader;
 use crate::error::Converter;
-use crate::packet::PacketHeader;
+use crate::packet::{IgnoredPacketHeader, IndexPacketHeader, PacketHeader};
 use crate::paged_reader::PagedReader;
 use crate::Error;
 use crate::PointCloud;
@@ -77,15 +77,25 @@ impl<'a, T: Read + Seek> QueueReader<'a, T> {
         let packet_header = PacketHeader::read(self.reader)?;
         match packet_header {
             PacketHeader::Index(header) => {
-                // Just skip over index packets
-                let mut buffer = vec![0; header.packet_length as usize];
+                // Just skip over index packets.
+                // The packet length includes the header that was already consumed.
+                let remaining = header
+                    .packet_length
+                    .checked_sub(IndexPacketHeader::SIZE)
+                    .invalid_err("Index packet length is smaller than its header")?;
+                let mut buffer = vec![0; remaining as usize];
                 self.reader
                     .read_exact(&mut buffer)
                     .read_err("Failed to read data of index packet")?
             }
             PacketHeader::Ignored(header) => {
-                // Just skip over ignored packets
-                let mut buffer = vec![0; header.packet_length as usize];
+                // Just skip over ignored packets.
+                // The packet length includes the header that was already consumed.
+                let remaining = header
+                    .packet_length
+                    .checked_sub(IgnoredPacketHeader::SIZE)
+                    .invalid_err("Ignored packet length is smaller than its header")?;
+                let mut buffer = vec![0; remaining as usize];
                 self.reader
                     .read_exact(&mut buffer)
                     .read_err("Failed to read data of ignored packet")?
